@@ -38,6 +38,8 @@ def index_var(node, base):
 
 
 def run(ck, facts, tier):
+    from shared import clauses as _clx
+    _clx.clauses_no_drop(ck, facts, "C20.CLAUSES-NO-DROP")
     # ------------------------------------------------------------------ TRAIT-CLAUSES
     R = "C20.TRAIT-CLAUSES"
     ck.rule(R, "K1/K2: TraitDatum emits `LocalImplAllowed(T)` as a fact for a local trait, and for an upstream trait one clause per "
